@@ -3,11 +3,12 @@ import RV.Drive.Detectors
 import RV.Drive.Mmae
 import RV.Drive.Angles
 import RV.Drive.Visibility
+import RV.Drive.Frames
 namespace RV.Drive
 open RV
 
 def handlers : List (String → Option (P String)) :=
-  [RV.Drive.Decisions.handle, RV.Drive.Detectors.handle, RV.Drive.Mmae.handle, RV.Drive.Angles.handle, RV.Drive.Visibility.handle]
+  [RV.Drive.Decisions.handle, RV.Drive.Detectors.handle, RV.Drive.Mmae.handle, RV.Drive.Angles.handle, RV.Drive.Visibility.handle, RV.Drive.Frames.handle]
 
 def step (line : String) : String :=
   match tokens line with
